@@ -927,7 +927,15 @@ class Tensor:
         relationship with the view-tensor since these are measures of "cause and effects"
         associated with varying elements of data (albeit infinitesmaly).
         """
-        if self._base is None:
+        if self._constant and self._base is not None:
+            # a constant tensor never acquires a gradient, even if it is a view
+            # of a tensor that does
+            return self._grad
+        return self._grad_or_view_of_base_grad()
+
+    def _grad_or_view_of_base_grad(self) -> Optional[np.ndarray]:
+        if self._base is None or self._base._constant:
+            # (the gradient of a non-constant view of a constant base is its own)
             return self._grad
 
         if self._view_grad is not None and self._view_grad.base is self._base._grad:
@@ -942,7 +950,7 @@ class Tensor:
         (view_parent,) = self._creator.variables
 
         # recursively fetches grad from parent
-        grad = view_parent.grad
+        grad = view_parent._grad_or_view_of_base_grad()
         with _track.no_autodiff:
             self._view_grad = self._replay_op(grad).data if grad is not None else None
         return self._view_grad
@@ -1492,7 +1500,7 @@ class Tensor:
             # "pull" on grad to force views to update their
             # gradients from upstream before the graph info
             # gets cleared
-            _ = self.grad
+            _ = self._grad_or_view_of_base_grad()
 
         self._view_children.clear()
         self._ops.clear()
